@@ -275,6 +275,9 @@ def run(ctx):  # noqa: C901
     okl = ("call", "builtins.range", (("+", (("c", 1), ("n", "i"))), ("n", "num_bases")), ()) in loops
     ctx.ob("R-ENUM", mub, "every pair of distinct bases compared", okl, "j in range(i + 1, num_bases)" if okl else "basis-pair loop changed")
 
+    # ---- unextendible product basis ------------------------------------------------------------------------------------------------
+    _upb(ctx)
+
     # ---- total positivity: every j x j minor, all j, all row sets x all column sets ----------------------------------------
     _totally_positive(ctx)
 
@@ -610,3 +613,53 @@ def _totally_positive(ctx):
         t = N(tests[0].test)
         okt = "('cmp', '<', ('n', 'd'), ('n', 'tol'))" in repr(t) and isinstance(tests[0].body[0], ast.Return) and isinstance(tests[0].body[0].value, ast.Constant) and tests[0].body[0].value.value is False
     ctx.ob("R-PRED", f, "a minor below the tolerance decides `not totally positive`", okt, "d < tol -> False" if okt else "the minor test changed", tests[0] if tests else None)
+
+
+def _upb(ctx):
+    """Structural clauses of is_unextendible_product_basis: (a) product-of-dims and product-state guards dominate; (b) the local factors are
+    kept in a container that allows different lengths per party (a rectangular ndarray of the factors only exists for equal local
+    dimensions -- F58); (c) every ordered m-partition of the vectors is tried; (d) the witness of party i spans the null space of the
+    CONJUGATED factors (orthogonality is <v|w> = conj(v).w -- F59); (e) verdicts: False with the tensor of the witnesses, else True."""
+    m = ctx.model
+    f = F(m, "is_unextendible_product_basis")
+    N = Normalizer(m, f, inline=False)
+    # (b)
+    split = [n for n in walk_no_nested(f.node) if isinstance(n, ast.Assign) and isinstance(n.targets[0], ast.Name) and "is_product" in unparse(n.value)
+             and isinstance(n.value, (ast.ListComp, ast.Call))]
+    split = [n for n in split if "[1]" in unparse(n.value)]
+    if split:
+        v = split[0].value
+        ragged_ok = isinstance(v, ast.ListComp) or (isinstance(v, ast.Call) and unparse(v.func) in ("list",))
+        if isinstance(v, ast.Call) and unparse(v.func) in ("np.array", "numpy.array", "np.asarray", "np.stack"):
+            ragged_ok = any(kw.arg == "dtype" and unparse(kw.value) == "object" for kw in v.keywords)
+        ctx.ob("R-SHAPE", f, "local factors are stored per party without assuming equal local dimensions", ragged_ok,
+               "list of lists" if ragged_ok else
+               f"`{unparse(split[0])[:70]}` packs the factors of all parties into one rectangular array: with unequal local dimensions (dims [2, 3]) numpy raises "
+               "'inhomogeneous shape' instead of returning a verdict", split[0])
+    else:
+        ctx.ob("R-SHAPE", f, "local factors are stored per party without assuming equal local dimensions", None, "splitting statement not found", required=False)
+    # (d)
+    ns = [c for c in ast.walk(f.node) if isinstance(c, ast.Call) and (m.resolve_call(f, c).key or "").endswith("null_space") and c.args]
+    if ns:
+        t = N(ns[0].args[0])
+        okc = t[0] == "conj" or (t[0] == "call" and t[1] in ("numpy.conj", "numpy.conjugate")) or (t[0] == "dag")
+        ctx.ob("R-COV", f, "witness spans the null space of the conjugated factors (<v|w> = 0)", okc,
+               "null_space(conj(M))" if okc else
+               f"`{unparse(ns[0])}` solves M w = 0, i.e. sum_k v_k w_k = 0 without the conjugate: for complex product vectors the returned witness is not orthogonal to them", ns[0])
+    # (c)
+    perms = [lp for lp in ast.walk(f.node) if isinstance(lp, ast.For) and "permutations" in unparse(lp.iter)]
+    parts = [n for n in ast.walk(f.node) if isinstance(n, ast.Call) and "set_partitions" in unparse(n.func)]
+    okp = bool(perms) and bool(parts) and len(parts[0].args) == 2 and unparse(parts[0].args[1]) == "num_parties"
+    ctx.ob("R-ENUM", f, "every ordered partition of the vectors into num_parties blocks is tried", okp,
+           "set_partitions(range(n), m) x permutations" if okp else "the enumeration of assignments of vectors to parties changed")
+    # (a)
+    from ..rules import r_guard_pred
+    res = flw.flow(f.node)
+    gs = [N(flw.conds(ff)[-1][0]) for _, ff in res.raises if flw.conds(ff)]
+    okg = any("numpy.prod" in repr(t) and "shape" in repr(t) for t in gs) and any("is_product" in repr(t) for t in gs)
+    ctx.ob("R-GUARD", f, "size and product-state guards raise before the search", okg, "both guards" if okg else "a validation guard is missing")
+    # (e)
+    rets = [n for n in ast.walk(f.node) if isinstance(n, ast.Return) and isinstance(n.value, ast.Tuple) and len(n.value.elts) == 2]
+    vals = sorted(unparse(r.value.elts[0]) for r in rets)
+    oke = vals == ["False", "True"] and any(unparse(r.value.elts[0]) == "False" and "tensor" in unparse(r.value.elts[1]) for r in rets)
+    ctx.ob("R-PRED", f, "verdict False comes with the tensor of the witnesses, True with None", oke, "(False, tensor(wit)) / (True, None)" if oke else f"returns {vals}")
